@@ -415,6 +415,8 @@ def connectivity_instances(ctx, mod, native_replay):
             return coords          # distances are the model's d variables: the Cartesian values themselves are never inspected
         models = {"scipy.spatial.cKDTree": _MF("scipy.cKDTree", kdtree_model), "_Tree.sparse_distance_matrix": _MF("scipy.cKDTree.sparse_distance_matrix(exact: pairs with d <= max_distance)", sdm),
                   "_Dok.items": _MF("dok.items", lambda I2, d: list(d.pairs)),
+                  "_Dok.keys": _MF("dok.keys", lambda I2, d: [k_ for k_, _v in d.pairs]),
+                  "_Dok.values": _MF("dok.values", lambda I2, d: [v_ for _k, v_ in d.pairs]),
                   "scipy.sparse.dok_matrix": _MF("scipy.sparse.dok_matrix(as a dictionary of keys)", lambda I2, shape, **k: {})}
         contracts = {CR + ".Crystal.slab": Contract(result=slab), CR + ".Crystal.to_cartesian": Contract(result=to_cart),
                      "chmpy.crystal.unit_cell.UnitCell.to_cartesian": Contract(result=to_cart),
